@@ -49,7 +49,7 @@ func runC20(c *Ctx) {
 	// methods calling Cond.Wait / Cond.Broadcast / Cond.Signal
 	var waitFn, bcastFn *ssa.Function
 	for _, fn := range m.Methods {
-		for _, call := range callsIn(fn) {
+		for _, call := range w.callsInDeep(fn) {
 			switch calleeName(call) {
 			case "(*sync.Cond).Wait":
 				waitFn = fn
@@ -85,7 +85,7 @@ func runC20(c *Ctx) {
 					return false
 				}
 				k, isK := intConst(bin.Y)
-				if !isK || w.Expr(bin.X) != "p1" {
+				if !isK || w.Expr(widenStrip(bin.X)) != "p1" {
 					return false
 				}
 				return (bin.Op == token.LSS && l.Pol && k <= tableLen) || (bin.Op == token.GEQ && !l.Pol && k <= tableLen) || (bin.Op == token.LEQ && l.Pol && k < tableLen)
@@ -150,6 +150,15 @@ func runC20(c *Ctx) {
 			var header *ssa.BasicBlock
 			if bin, ok := ia.Index.(*ssa.BinOp); ok {
 				header = bin.Block()
+			}
+			if phi, ok := ia.Index.(*ssa.Phi); ok {
+				// hand-written loop: the condition is tested in the phi's block; what holds before the loop is what
+				// holds in the block that enters it
+				for i, e := range phi.Edges {
+					if k, isK := intConst(e); isK && k == 0 {
+						header = phi.Block().Preds[i]
+					}
+				}
 			}
 			for l := range f.Primary(st.Block()) {
 				if header != nil && f.Primary(header)[l] {
@@ -369,6 +378,18 @@ func runC20(c *Ctx) {
 }
 
 // findStoreOf: the value v (an append of varargs arrays) contains expression want among the appended elements.
+// widenStrip looks through integer conversions that preserve the value (byte -> int, ...).
+func widenStrip(v ssa.Value) ssa.Value {
+	for i := 0; i < 4; i++ {
+		cv, ok := strip(v).(*ssa.Convert)
+		if !ok || !widening(cv.X.Type(), cv.Type()) {
+			return strip(v)
+		}
+		v = cv.X
+	}
+	return v
+}
+
 func findStoreOf(w *World, v ssa.Value, want string) bool {
 	call, ok := v.(*ssa.Call)
 	if !ok {
